@@ -230,6 +230,39 @@ Proof.
     exists a. split; [exact L|]. split; [exact F|reflexivity].
 Qed.
 
+(** ** the implementation's heuristic [type_def_is_copy] (the model's [is_copy]) is a SUBSET of the
+    specification's [copy_ty]: it additionally refuses arrays longer than 32.  Same fuel. *)
+Lemma is_copy_copy_ty (r : registry) : forall fuel id t st st',
+  lookup r id = Some t -> is_copy r fuel (t_def t) st = XOk (true, st') -> copy_ty r fuel id = true.
+Proof.
+  induction fuel as [|fuel IH]; intros id t st st' L H; [discriminate H|].
+  cbn [copy_ty]. rewrite L. cbn [is_copy] in H.
+  destruct (t_def t) as [fs|vs|e|len e|l|p|e|bs bo] eqn:D.
+  - apply xret_ok in H. discriminate H.
+  - apply xret_ok in H. discriminate H.
+  - apply xret_ok in H. discriminate H.
+  - apply xbind_ok in H as (te & st1 & Hte & H). unfold resolve_type_m in Hte.
+    destruct (lookup r e) as [te'|] eqn:Le; [|discriminate Hte]. apply xret_ok in Hte. subst te'.
+    destruct (len <=? 32)%N; [|apply xret_ok in H; discriminate H].
+    exact (IH e te st1 st' Le H).
+  - clear D. revert st H. induction l as [|i l IHl]; intros st H; [reflexivity|].
+    apply xbind_ok in H as (te & st1 & Hte & H). unfold resolve_type_m in Hte.
+    destruct (lookup r i) as [te'|] eqn:Le; [|discriminate Hte]. apply xret_ok in Hte. subst te'.
+    apply xbind_ok in H as (b & st2 & Hb & H).
+    destruct b; [|apply xret_ok in H; discriminate H].
+    cbn [forallb]. rewrite (IH i te st1 st2 Le Hb). cbn [andb]. eapply IHl. exact H.
+  - apply xret_ok in H. destruct p; cbn in H; try discriminate H; reflexivity.
+  - apply xbind_ok in H as (te & st1 & Hte & H). unfold resolve_type_m in Hte.
+    destruct (lookup r e) as [te'|] eqn:Le; [|discriminate Hte]. apply xret_ok in Hte. subst te'.
+    exact (IH e te st1 st' Le H).
+  - apply xret_ok in H. discriminate H.
+Qed.
+
+(** for the fuel the model uses ([copy_fuel] = number of entries + 1 = the fuel of [copy_tyb]) *)
+Lemma model_copy_is_copy (r : registry) id t st st' :
+  lookup r id = Some t -> is_copy r (copy_fuel r) (t_def t) st = XOk (true, st') -> copy_tyb r id = true.
+Proof. unfold copy_tyb, copy_fuel. apply is_copy_copy_ty. Qed.
+
 Section Main.
   Variable r : registry.
   Variable s : settings.
@@ -441,7 +474,8 @@ Section Main.
       apply xret_ok in H. subst v. intros rest.
       pose proof (IH t0 te Le _ _ _ Hitem) as HI.
       destruct cp; rewrite <- !List.app_assoc; cbn [app].
-      + eapply c_array_repeat; eauto; apply HI.
+      + eapply c_array_repeat; [exact L|exact D| |apply HI].
+        right. exact (model_copy_is_copy r t0 te _ _ Le Hcp).
       + eapply c_array_list; eauto; apply copies_sep; exact HI.
     - (* tuple *)
       apply xbind_ok in H as (l & st1 & Hl & H). apply xret_ok in H. subst v.
@@ -487,6 +521,16 @@ Proof.
 Qed.
 
 (** ** 4. soundness of the boolean reader *)
+Lemma repeat_okb_sound r len e : repeat_okb r len e = true -> repeat_ok r len e.
+Proof.
+  unfold repeat_okb, repeat_ok. intros H. apply orb_prop in H as [H|H]; [left; apply N.leb_le; exact H|right; exact H].
+Qed.
+
+Lemma repeat_okb_complete r len e : repeat_ok r len e -> repeat_okb r len e = true.
+Proof.
+  unfold repeat_okb, repeat_ok. intros [H|H]; [apply N.leb_le in H; rewrite H; reflexivity|rewrite H; apply orb_true_r].
+Qed.
+
 Lemma expect_ok x ts rest : expect x ts = Some rest -> ts = x :: rest.
 Proof.
   unfold expect. destruct ts as [|t ts']; [discriminate|]. destruct (String.eqb t x) eqn:E; [|discriminate].
@@ -751,8 +795,10 @@ Section IrSound.
         inversion H; subst r1. apply expect_ok in E2. subst t1. eapply c_array_list; eauto. apply sep_0.
       + destruct (conf_ir r s m fuel t0 t1) as [t2|] eqn:Ee; [|discriminate]. apply IH in Ee.
         destruct (expect ";" t2) as [t3|] eqn:E3.
-        * apply expect_ok in E3. subst t2. apply expects_ok in H. subst t3. cbn [app] in Ee.
-          eapply c_array_repeat; eauto.
+        * apply expect_ok in E3. subst t2.
+          destruct (repeat_okb r len t0) eqn:Erp; [|discriminate].
+          apply expects_ok in H. subst t3. cbn [app] in Ee.
+          eapply c_array_repeat; eauto. apply repeat_okb_sound. exact Erp.
         * destruct (expect "," t2) as [t3'|] eqn:E4.
           -- apply expect_ok in E4. subst t2.
              destruct (read_sep (conf_ir r s m fuel) (S (List.length t3')) t0 t3' 0) as [[k t4]|] eqn:Es; [|discriminate].
@@ -864,4 +910,48 @@ Theorem example_conforms_unique (r : registry) (s : settings) (teq : N -> N -> r
   forall id ws ts, example_rust r s id ws = XOk ts -> conforms r s m id ts [].
 Proof.
   intros Hg Hu. apply (example_conforms r s teq m Hg). apply unique_paths_consistent. exact Hu.
+Qed.
+
+(** ** 7. the repeat form is NOT available for an array of >= 2 elements of a non-[Copy] type:
+    every derivation of [conforms] for such an entry ends with the explicit-list constructor *)
+Lemma lookup_fun r id (t t' : ty) : lookup r id = Some t -> lookup r id = Some t' -> t' = t.
+Proof. intros H H'. rewrite H in H'. inversion H'; reflexivity. Qed.
+
+Theorem repeat_needs_copy (r : registry) (s : settings) (m : items) id t len e ts rest :
+  conforms r s m id ts rest ->
+  lookup r id = Some t -> t_def t = TDArray len e -> (2 <= len)%N -> copy_tyb r e = false ->
+  exists ts', ts = "["%string :: ts' /\ conf_sep (conforms r s m) e len ts' ("]"%string :: rest).
+Proof.
+  intros H L D Hlen Hnc.
+  inversion H as [id' t' p ts0 rest0 L' D' Hp
+                 |id' t' e' ts0 rest0 L' D' hc
+                 |id' t' st o rest0 L' D'
+                 |id' t' e' n ts0 rest0 L' D' hs
+                 |id' t' len' e' ts0 rest0 L' D' Hrp hc
+                 |id' t' len' e' ts0 rest0 L' D' hs
+                 |id' t' l ts0 rest0 L' D' ht
+                 |id' t' fs inner ts0 rest0 L' D' Hcow hc
+                 |id' t' fs p id0 ir Ly mk ts0 rest0 L' D' Hcow He Hp Hg Hsig hsh
+                 |id' t' fs p Ly mk ts0 rest0 L' D' Hcow He Hp Hl hsh
+                 |id' t' vs v p id0 ir sigs Ly ts0 rest0 L' D' Hv He Hp Hg Hsig Hin hsh
+                 |id' t' vs v p Ly ts0 rest0 L' D' Hv He Hp Hl hsh
+                 |id' t' vs v rest0 L' D' Hv Hn Hf Hp]; subst;
+    pose proof (lookup_fun r id t t' L L'); subst t'; rewrite D in D'; try discriminate D'.
+  - (* repeat form: excluded *)
+    inversion D'; subst. exfalso. destruct Hrp as [Hle|Hcp]; [lia|congruence].
+  - (* explicit list *)
+    inversion D'; subst. eexists. split; [reflexivity|exact hs].
+Qed.
+
+(** token shape: the first element is followed by a comma (and [len - 1] more elements), not by
+    the [; <len>usize ]] of the repeat form *)
+Corollary repeat_needs_copy_tokens (r : registry) (s : settings) (m : items) id t len e ts rest :
+  conforms r s m id ts rest ->
+  lookup r id = Some t -> t_def t = TDArray len e -> (2 <= len)%N -> copy_tyb r e = false ->
+  exists ts' mid, ts = "["%string :: ts' /\ conforms r s m e ts' (","%string :: mid) /\
+                  conf_sep (conforms r s m) e (N.pred len) mid ("]"%string :: rest).
+Proof.
+  intros H L D Hlen Hnc. destruct (repeat_needs_copy r s m id t len e ts rest H L D Hlen Hnc) as (ts' & -> & Hs).
+  inversion Hs as [fin0|ts0 fin0 Hc|n ts0 mid fin0 Hn Hc Hs']; subst; try lia.
+  exists ts', mid. split; [reflexivity|]. split; [exact Hc|]. rewrite N.pred_succ. exact Hs'.
 Qed.
